@@ -209,6 +209,21 @@ def run(tier):
     gs = global_state_scan(art)
     # history independence: B compiled after A (same thread, same process) must give what B gives in a fresh process
     hist = history_check(art, tier); nat += hist["runs"]
+    # the repo's own programs (with the bundled std): fresh processes have fresh hash seeds, every run must print the same bytes
+    from luasym import runner
+    import random
+    files_c = runner.corpus(common.repo_path("tests")); rnd = random.Random(common.seed())
+    if tier == "quick": files_c = rnd.sample(files_c, min(len(files_c), 60))
+    def _runs(f):
+        outs = set()
+        for _ in range(3):
+            r = subprocess.run([art["sylt"], "-o", "-", f], cwd=common.REPO, capture_output=True, text=True, timeout=120); outs.add((r.returncode, r.stdout, r.stderr))
+        return f, len(outs)
+    from concurrent.futures import ThreadPoolExecutor
+    with ThreadPoolExecutor(16) as tp: corpus_res = list(tp.map(_runs, files_c))
+    nat += 3 * len(files_c)
+    for f, k in corpus_res:
+        if k > 1: fnd.report("native-nondeterministic:corpus", "tests/%s: %d different outputs in 3 runs of the same binary on the same input" % (os.path.relpath(f, common.repo_path("tests")), k), {"note.txt": f}, cmd="for i in 1 2 3; do sylt -o - %s | md5sum; done" % f)
     for h in hist["diffs"]:
         fnd.report("depends-on-earlier-compilations", "compiling %s after %s gives a different result than compiling it first: %s vs %s%s" % (h["b"], h["a"], h["after"][:160], h["alone"][:160],
                    (" (global state in the MIR dump: %s)" % gs[0][1][:100]) if gs else ""), h["files"], cmd="sylt-replay seq a/main.sy b/main.sy ; sylt-replay seq b/main.sy")
